@@ -24,6 +24,10 @@ def check_case(run, case):
         run.ev('SEGMENTED', len(res.segmented))
         disk = oracles.Disk(path)
         lang = oracles.Language(disk, skip_brute=True)
+        if not lang.base:
+            # every training password had an e-mail / website segment: nothing is claimed for such a list (the Markov-only ruleset cannot even be
+            # loaded with --skip_brute, see C14)
+            run.ev('lists_without_supported_password'); run.inconc('no supported password in the list'); return
         est = 0
         for bi, labs, bp, s in lang.base:
             k = 1
